@@ -315,7 +315,7 @@ func hexOfSeq(m smt.Model, bs []value) string {
 }
 
 func apiYield(fr *frame, a []value) value {
-	fr.i.ps.sched.park(&pendingOp{kind: opResume})
+	fr.i.ps.sched.park(&pendingOp{kind: opResume, wild: true})
 	return nil
 }
 
@@ -384,6 +384,13 @@ func apiDrain(fr *frame, a []value) value {
 			}
 		}
 		if !busy {
+			// quiescence is a synchronisation point for the race monitor
+			for _, g := range s.gs {
+				if g != s.cur {
+					s.cur.clk = s.cur.clk.join(g.clk)
+				}
+			}
+			s.cur.clk = s.cur.clk.tick(s.cur.id)
 			return nil
 		}
 		s.parkDrain()
